@@ -423,7 +423,9 @@ mod pty {
                     events.push(Evt::Payload(payloads.len()));
                     payloads.push(p.clone());
                     req.push_str(&format!(" W:{l}:{t}"));
-                    term.write_all(&p).unwrap();
+                    // `write`, not `write_all`: an empty buffer must still reach `Write::write` (it creates a chunk)
+                    let n = term.write(&p).unwrap();
+                    assert_eq!(n, p.len());
                 }
                 TOp::Exec(n) => {
                     let mut p = Vec::new();
@@ -614,6 +616,7 @@ mod pty {
         let mut total_short = 0usize;
         let mut total_eagain = 0usize;
         let mut inconclusive = 0u64;
+        let mut consecutive_inconclusive = 0u64;
         let mut run = |out: &mut Out, ops: Vec<TOp>, profile: u64, peer_seed: u64, label: &str, trace: bool| {
             let o = run_session(&ops, profile, peer_seed, trace);
             n_sessions += 1;
@@ -623,25 +626,34 @@ mod pty {
             total_eagain += o.eagain;
             if o.inconclusive.is_some() {
                 inconclusive += 1;
+                consecutive_inconclusive += 1;
+            } else {
+                consecutive_inconclusive = 0;
             }
             report(out, &ops, profile, peer_seed, label, o);
+            consecutive_inconclusive >= 3
         };
+        let mut give_up = false;
         for (ops, profile) in fixed {
             let seed = rng.next();
-            run(out, ops, profile, seed, "fixed", true);
+            give_up = run(out, ops, profile, seed, "fixed", true);
         }
         let mut i = 0u64;
-        while t0.elapsed() < budget {
+        while t0.elapsed() < budget && !give_up {
             // size classes: mostly small and medium; a MiB session now and then (always one in the quick tier)
             let class = if i == 1 { 2 } else { match rng.below(10) { 0..=4 => 0, 5..=8 => 1, _ => 2 } };
             let profile = if class == 2 { rng.below(2) } else { rng.below(4) };
             let ops = random_session(rng, class);
             let seed = rng.next();
-            run(out, ops, profile, seed, &format!("random-class{class}"), class < 2);
+            give_up = run(out, ops, profile, seed, &format!("random-class{class}"), class < 2);
             i += 1;
-            if !cfg.thorough && i >= 14 {
+            if !cfg.thorough && i >= 30 {
                 break;
             }
+        }
+        if give_up {
+            // three sessions in a row did not complete: the environment (or the terminal) is stuck; stop sampling
+            out.hist("pty:gave-up-after-3-inconclusive-sessions");
         }
         out.extra("pty", json!({
             "sessions": n_sessions, "inconclusive_sessions": inconclusive, "bytes_received_by_master": total_bytes,
